@@ -40,8 +40,7 @@ def timed_run(v, params, kind, delivery, tk=None):
     modes are modes of ONE tokenizer; its earlier runs must not show)."""
     frames, validator = tok.FRAME_KINDS[kind](v)
     if len(v) > 2 and (len(v) * 5 + params[1]) % 7 == 3:
-        # a source that re-binds its own read() after some frames (live phase, then cached phase): every frame is obtained
-        # through source.read as it resolves at that moment
+        # a source whose read() delegates to an implementation that is re-pointed after some frames (live phase, then cached phase)
         src = tok.SwitchingSource(frames, 1 + (len(v) + params[0]) % (len(v) - 1))
     else:
         src = tok.CountingSource(frames)
